@@ -92,3 +92,33 @@ Theorem C04_every_state_has_such_a_file :
     exists P, pstate_of_body P = Some s /\ (exists x, skip_ws P = (123 :: x)%N) /\ (exists y, P = (y ++ [125%N])%list).
 Proof. exact state_has_a_file. Qed.
 Print Assumptions C04_every_state_has_such_a_file.
+
+(* ---------- torn writes of state.json (JsonSj.v, JsonSjWidth.v) ----------
+   The same for the other state file: with state.json read at the text level by the model (JsonSj.sj_of_file: the derived
+   readers of SerializedState, of PatchEvent for every queued event, and EventType's own), a save of state.json that is
+   cut short anywhere - the process dies, or a write fails, inside disk_io::write - leaves a file the next load cannot
+   read, which load_or_new_on_error answers by discarding everything. *)
+From UV Require Import JsonSj JsonSjProofs JsonSjWidth.
+Theorem C04_torn_state_json_is_garbage :
+  forall (P p r : bytes) s,
+    sj_of_file P = JOk s -> P = (p ++ r)%list -> r <> [] ->
+    (exists x, skip_ws P = (123 :: x)%N) -> (exists y, P = (y ++ [125%N])%list) ->
+    sj_of_file p = JGarbage.
+Proof. exact torn_state_json. Qed.
+Print Assumptions C04_torn_state_json_is_garbage.
+
+(* the vector of queued events is read by a reader with room for as many events as the text has bytes; ANY room that is
+   at least that reads the same thing: the model's reader is the reader with unbounded room (serde's Vec visitor) *)
+Theorem C04_state_json_reader_room_is_irrelevant :
+  forall (n : nat) (l : bytes), (List.length l <= n)%nat -> sj_of_file_n n l = sj_of_file l.
+Proof. exact sj_of_file_width. Qed.
+Print Assumptions C04_state_json_reader_room_is_irrelevant.
+
+(* what is read is exactly a sentence of the state file's grammar whose tree the derived readers accept - nothing else
+   (not JSON, a missing or repeated member, a vector that is not an array, an unknown event type) is a readable state *)
+Theorem C04_state_json_language :
+  forall n l s,
+    fstate_of_body_n n l = Some s <->
+    exists w b w' t, WS w /\ GS (sstate_schema n) t b /\ WS w' /\ l = (w ++ b ++ w')%list /\ fstate_of_json t = Some s.
+Proof. exact fstate_of_body_iff. Qed.
+Print Assumptions C04_state_json_language.
